@@ -365,12 +365,9 @@ def generate(tier, rng):
                     c += 1
                     even = nx % 2 == 0 and ny % 2 == 0
                     mopts = [[512, 512]]
-                    if even:
+                    if even:       # odd or mixed sizes: only the clamp is admissible
                         mopts += [[nx, ny], [nx - 4, ny - 2], [4, 6]]
-                    elif nx % 2 and ny % 2:
-                        pass
                     modes = mopts[c % len(mopts)]
-                    # odd/even mixed shape (11,12): only the clamp is admissible
                     mp = [[0.0, 0.0], [3 * dx, 2 * dy], [2.3 * dx, 1.6 * dy]][c % 3]
                     const = CONSTS[c % 4] if rep == 0 else _rand_const(rng)
                     yield "analytic_bins", dict(
